@@ -253,6 +253,32 @@ Theorem C15_collapse_to_base_boundary_edge_keeps_wf2 `{Sig} : forall E n ks b0l 
 Proof. exact collapse_to_base_boundary_wf. Qed.
 Print Assumptions C15_collapse_to_base_boundary_edge_keeps_wf2.
 
+(** Non-vacuity: the unit square split in two triangles 1 -> 2 -> 3 and 4 -> 5 -> 6 glued along 3 | 4 (the mesh of the
+    repaired defect) meets the premises of the boundary theorems with (pe, e, ne) = (3, 1, 2) -- both other sides of the
+    first triangle are on the boundary, pe is glued to 4 -- and those of the interior theorems with (pe, e, ne) = (1, 2, 3):
+    ne is glued to q = 4 in the face 6 -> 4 -> 5. *)
+Definition c15_square (i d : N) : N :=
+  if i =? 1 then (if d =? 1 then 2 else if d =? 2 then 3 else if d =? 3 then 1 else if d =? 4 then 5 else if d =? 5 then 6 else if d =? 6 then 4 else 0)
+  else if i =? 0 then (if d =? 2 then 1 else if d =? 3 then 2 else if d =? 1 then 3 else if d =? 5 then 4 else if d =? 6 then 5 else if d =? 4 then 6 else 0)
+  else if i =? 2 then (if d =? 3 then 4 else if d =? 4 then 3 else 0)
+  else 0.
+Example C15_to_base_boundary_premises :
+  let f := c15_square in let x := f 2 3 in
+  NoDup [3; 1; 2; x] /\ f 1 3 = 1 /\ f 1 1 = 2 /\ f 1 2 = 3 /\ f 2 2 = 0 /\ f 2 1 = 0 /\ x <> 0 /\ f 2 x = 3.
+Proof.
+  cbv zeta. repeat split; try discriminate; try reflexivity.
+  cbn. repeat (constructor; [cbn; intros Q; repeat (destruct Q as [Q|Q]; [discriminate Q|]); exact Q|]). constructor.
+Qed.
+Example C15_to_base_inner_premises :
+  let f := c15_square in let q := f 2 3 in let p0 := f 0 q in let p1 := f 1 q in
+  NoDup [1; 2; 3; q; p0; p1] /\ ~ In 0 [1; 2; 3; q; p0; p1] /\
+  f 1 1 = 2 /\ f 1 2 = 3 /\ f 1 3 = 1 /\ f 1 p0 = q /\ f 2 2 = 0.
+Proof.
+  cbv zeta. repeat split; try discriminate; try reflexivity.
+  - cbn. repeat (constructor; [cbn; intros Q; repeat (destruct Q as [Q|Q]; [discriminate Q|]); exact Q|]). constructor.
+  - cbn. intros Q; repeat (destruct Q as [Q|Q]; [discriminate Q|]); exact Q.
+Qed.
+
 (** The two half-cell routines of the edge collapse -- the programs the four collapse theorems above are about -- are,
     verbatim, what tools/tr_kern.py regenerates from remeshing/collapse.rs on every run: an edit of either routine
     changes Map2/GenKern.v and this theorem stops compiling. *)
